@@ -21,6 +21,8 @@ def run(tier, seed):
             uniq.append(s)
     cfgs = [{'threads': t, 'backup': 'never', 'quiet': True} for t in (1, 2, 3)] + [{'threads': 1, 'backup': 'always', 'quiet': False}]
     wsprops.sweep('C13', res, m0, uniq, cfgs, 'sweep')
+    import rawcases
+    rawcases.run_expect('C13', res)
     cov = res.coverage
     cov['series'] = len(uniq)
     cov['configs'] = len(cfgs)
